@@ -218,7 +218,9 @@ class Flow:
         guard_facts: bool = False,
         calls_raise: bool = True,
         fold_test: Callable[[ast.AST], object] | None = None,
+        loops_nonempty: bool = False,
     ):
+        self.loops_nonempty = loops_nonempty
         self.transfer = transfer
         self.guard_facts = guard_facts
         self.calls_raise = calls_raise
@@ -342,9 +344,12 @@ class Flow:
             else:
                 s_test = self._apply(st.iter, new)
                 s_body = s_test
-                exit_states |= s_test
+                if not self.loops_nonempty:
+                    exit_states |= s_test
             res = self._block(st.body, s_body)
             frontier = res.pop("fall", set()) | res.pop("continue", set())
+            if not is_while and self.loops_nonempty:
+                exit_states |= frontier
             brk = res.pop("break", set())
             out.setdefault("fall", set()).update(brk)
             _merge(out, res)
